@@ -19,6 +19,10 @@ fn gen_leaf_type(r: &mut Rng) -> DataType {
         // ArrowWriter::write fails with "Cannot coerce Decimal32(1, s) to I64".  Precision 1 is excluded here.
         27 => { let p = 2 + r.below(8) as u8; DataType::Decimal32(p, r.below(p as usize + 1) as i8) }
         28 => { let p = 1 + r.below(18) as u8; DataType::Decimal64(p, r.below(p as usize + 1) as i8) }
+        29 => { // run-end encoded: documented to come back as the value type
+            let v = match r.below(6) { 0 => DataType::Int32, 1 => DataType::Int64, 2 => DataType::Utf8, 3 => DataType::Boolean, 4 => DataType::Float64, _ => DataType::Binary };
+            DataType::RunEndEncoded(Arc::new(Field::new("run_ends", DataType::Int32, false)), Arc::new(Field::new("values", v, true)))
+        }
         _ => DataType::Int32,
     }
 }
@@ -29,7 +33,9 @@ fn gen_name(r: &mut Rng, i: usize) -> String {
 
 fn gen_type(r: &mut Rng, depth: usize) -> DataType {
     if depth == 0 || r.chance(2, 5) { return gen_leaf_type(r); }
-    match r.below(6) {
+    match r.below(8) {
+        6 => DataType::ListView(Arc::new(Field::new("item", gen_type(r, depth - 1), r.chance(2, 3)))),
+        7 => DataType::LargeListView(Arc::new(Field::new("item", gen_type(r, depth - 1), r.chance(2, 3)))),
         0 | 1 => { let n = 1 + r.below(3); DataType::Struct(Fields::from((0..n).map(|i| Field::new(gen_name(r, i), gen_type(r, depth - 1), r.chance(2, 3))).collect::<Vec<_>>())) }
         2 => DataType::List(Arc::new(Field::new(*r.pick(&["item", "element", "x"]), gen_type(r, depth - 1), r.chance(2, 3)))),
         3 => DataType::LargeList(Arc::new(Field::new("item", gen_type(r, depth - 1), r.chance(2, 3)))),
@@ -115,6 +121,15 @@ fn gen_column_vals(f: &Field, nrows: usize, r: &mut Rng, null_pct: u32) -> Vec<V
             }).collect();
         }
     }
+    if let DataType::RunEndEncoded(_, _) = f.data_type() {   // runs of equal values (and of nulls)
+        let mut out: Vec<Val> = Vec::with_capacity(nrows);
+        while out.len() < nrows {
+            let v = gen_val(f.data_type(), f.is_nullable(), r, null_pct.min(40));
+            let m = *r.pick(&[1usize, 2, 5, 30, 200]); let k = 1 + r.below(m);
+            for _ in 0..k { if out.len() < nrows { out.push(v.clone()); } }
+        }
+        return out;
+    }
     (0..nrows).map(|_| gen_val(f.data_type(), f.is_nullable(), r, null_pct)).collect()
 }
 
@@ -135,7 +150,10 @@ fn gen_roundtrip(r: &mut Rng, emit: &mut dyn FnMut(Case)) {
     let cfg = gen_config(r);
     let part = gen_partition(r, nrows);
     let tag = format!("rt v{} m{} d{} c{} cdc{} dict{}{}", cfg[C_VERSION], cfg[C_MODE], depth, cfg[C_COMPRESSION], (cfg[C_CDC] > 0) as u8, cfg[C_DICT], if cfg[C_DICT_LIMIT] > 0 && cfg[C_DICT_LIMIT] < 100 { "f" } else { "" });
-    emit(Case::new("c05.roundtrip", vec![bigs(&cfg), bigs(&part), bigs(&enc_schema(&schema)), content], &["c05.roundtrip.spec"], tag));
+    let expected = Schema::new(schema.fields().iter().map(|f| read_back_field(f)).collect::<Vec<_>>());
+    let (es, ws) = (enc_schema(&expected), enc_schema(&schema));
+    let written = if es == ws { vec![] } else { bigs(&ws) };
+    emit(Case::new("c05.roundtrip", vec![bigs(&cfg), bigs(&part), bigs(&es), content, written], &["c05.roundtrip.spec"], tag));
 }
 
 fn gen_path_value(path: &[i64], kinds: &[i64], fsl: &[i64], ki: usize, r: &mut Rng, null_pct: u32, out: &mut Vec<i64>) {
@@ -157,7 +175,7 @@ fn gen_levels(r: &mut Rng, emit: &mut dyn FnMut(Case)) {
     let mut path: Vec<i64> = Vec::new();
     let mut nrep = 0;
     for _ in 0..len { let n = r.below(3) as i64; if n == 2 { if nrep == 3 { continue; } nrep += 1; } path.push(n); }
-    let kinds: Vec<i64> = (0..nrep).map(|_| *r.pick(&[0i64, 0, 1, 2, 3])).collect();
+    let kinds: Vec<i64> = (0..nrep).map(|_| *r.pick(&[0i64, 0, 1, 2, 3, 4, 5])).collect();
     let fsl: Vec<i64> = (0..nrep).map(|_| *r.pick(&[1i64, 2, 3])).collect();
     let nrows = match r.below(8) { 0 => 0, 1 => 1, 2 | 3 => 60 + r.below(100), 4 => 150 + r.below(250), _ => 1 + r.below(40) };
     let null_pct = *r.pick(&[0u32, 10, 30, 60, 100]);
@@ -176,7 +194,7 @@ fn gen_levels(r: &mut Rng, emit: &mut dyn FnMut(Case)) {
 }
 
 pub fn generate(tier: &str, r: &mut Rng, emit: &mut dyn FnMut(Case)) {
-    let (nrt, nlv) = if tier == "thorough" { (4000, 3000) } else { (400, 300) };
+    let (nrt, nlv) = if tier == "thorough" { (3000, 2500) } else { (400, 300) };
     for _ in 0..nlv { gen_levels(r, emit); }
     for _ in 0..nrt { gen_roundtrip(r, emit); }
 }
